@@ -76,7 +76,7 @@ class Program:
         return self.cfg(fi).reaching_defs(name, at)
 
     # ------------------------------------------------------ value-flow helper
-    def origins(self, fi: FuncInfo, expr: ast.AST, through=None, _seen=None, depth: int = 0):
+    def origins(self, fi: FuncInfo, expr: ast.AST, through=None, _seen=None, depth: int = 0, prune_falsy: bool = False):
         """Backward slice of `expr` through local assignments: yields
         (leaf_expr, path) where path is the list of expressions traversed.
         A leaf is an expression that is not a local Name with reaching
@@ -103,6 +103,8 @@ class Program:
                     if key in _seen:
                         continue
                     _seen.add(key)
+                    if prune_falsy and self.cfg(fi).def_reaches_only_when_falsy(df, e):
+                        continue  # only None / "" / 0 can arrive from this definition
                     v, how = df.element()
                     if v is None:
                         results.append((df.binder, path + [e]))
